@@ -142,19 +142,20 @@ func runC18(r *simkit.Run) {
 			finished++
 		})
 	}
-	drive(r, tp, 4000, func() {
+	driveBusy(r, tp, 4000, func() {
 		// idle sessions are closed by the proxy's timer in some runs: let time pass now and then
 		if shortTimeout && tp.Chance(1, 6) {
 			r.Advance([]time.Duration{time.Second, 6 * time.Second, 11 * time.Second}[tp.Choose(3)])
 			r.Fault("clock-advance-past-session-timeout")
 		}
-	})
+	}, func() bool { return finished < nClients })
 	checkC18(r, h, keep, time.Duration(wo.SessionTimeoutSec)*time.Second)
 	if finished < nClients {
 		r.Probe("run-incomplete-clients-still-blocked")
 	}
 	// after every client has gone nothing may stay checked out
 	if !r.Failed() && finished == nClients {
+		r.FreeRun()
 		r.Advance(1e9)
 		if inUse, detail := w.PoolStats(); inUse != 0 {
 			r.Failf("C18-connections-not-released", "all clients have disconnected but %d backend connections are still checked out: %v", inUse, detail)
@@ -224,9 +225,16 @@ func checkC18(r *simkit.Run, h *History, keep bool, sessionTimeout time.Duration
 	pinned := map[int]map[string]bool{} // keep-session: connections a client is pinned to
 	lastActivity := map[int]time.Duration{}
 	active := map[int]*OpRec{}
+	touched := map[int]map[string]bool{}       // connections that received anything during a client's solitary operations
+	touchedBefore := map[int]map[string]bool{} // the same, as of the start of the client's current operation
 	for _, e := range evs {
 		switch e.kind {
 		case 0:
+			tb := map[string]bool{}
+			for k := range touched[e.rec.Client] {
+				tb[k] = true
+			}
+			touchedBefore[e.rec.Client] = tb
 			active[e.rec.Client] = e.rec
 			lastActivity[e.rec.Client] = e.rec.At
 			switch e.rec.Op.Class {
@@ -265,6 +273,15 @@ func checkC18(r *simkit.Run, h *History, keep bool, sessionTimeout time.Duration
 		case 1:
 			st := e.st
 			ck := fmt.Sprintf("%s#%d", st.Backend, st.ConnID)
+			{
+				// (with several operations in flight the statement is credited to all of them: a superset)
+				for cl := range active {
+					if touched[cl] == nil {
+						touched[cl] = map[string]bool{}
+					}
+					touched[cl][ck] = true
+				}
+			}
 			isEnd := st.Kind == "commit" || st.Kind == "rollback" || (st.Kind == "set" && strings.Contains(strings.ToLower(st.SQL), "autocommit = 1"))
 			if isEnd {
 				if o := owner[ck]; o != nil {
@@ -280,7 +297,7 @@ func checkC18(r *simkit.Run, h *History, keep bool, sessionTimeout time.Duration
 					delete(owner, ck)
 				} else if en := endingClientOf(ending, st); en != nil && !keep && !en.Overlap && en.TxOpen {
 					// a COMMIT/ROLLBACK of a client's transaction went to a connection the transaction never used
-					if tu := txs[key(en.Client, en.TxID)]; tu == nil || !usedConn(tu, ck) {
+					if tu := txs[key(en.Client, en.TxID)]; (tu == nil || !usedConn(tu, ck)) && !touchedBefore[en.Client][ck] {
 						if st.Kind == "commit" || (st.Kind == "rollback" && en.Op.Class == "rollback") {
 							r.Failf("C18-end-sent-to-foreign-connection", "client %d %s of transaction %d was sent to connection %s which the transaction never used", en.Client, en.Op.Class, en.TxID, ck)
 						}
@@ -292,28 +309,6 @@ func checkC18(r *simkit.Run, h *History, keep bool, sessionTimeout time.Duration
 			var rec *OpRec
 			if len(ms) > 0 {
 				rec = opByMarker[ms[0]]
-			} else if len(active) == 1 && st.Kind != "begin" && st.Kind != "set" && st.Kind != "savepoint" && st.Kind != "use" {
-				// a statement without a literal (SHOW, field list) while exactly one operation is in flight
-				for _, a := range active {
-					rec = a
-				}
-				if rec.TxOpen {
-					if tu := txs[key(rec.Client, rec.TxID)]; tu != nil || true {
-						if tu == nil {
-							tu = &txUse{client: rec.Client, txid: rec.TxID, from: rec.Seq0, conns: map[string]map[uint32]bool{}, addrs: map[string]string{}}
-							txs[key(rec.Client, rec.TxID)] = tu
-						}
-						if tu.conns[st.Slice] == nil {
-							tu.conns[st.Slice] = map[uint32]bool{}
-						}
-						tu.conns[st.Slice][st.ConnID] = true
-						tu.addrs[st.Slice] = st.Backend
-						if st.Role == "master" {
-							owner[ck] = tu
-						}
-					}
-				}
-				continue
 			}
 			if rec == nil {
 				continue
